@@ -59,3 +59,7 @@ declare_fields('OperandParser', _config='cfg', _specific_operands_model='Specifi
 declare_fields('OperandSetsModel', _config='cfg', _operand_sets='list[OperandSet]')
 declare_fields('SpecificOperandsModel', _specific_operands='list[SpecificOperandConfig]')
 declare_fields('SpecificOperandConfig', _config='cfg', _operands='list[Operand]')
+
+declare_fields('InstructionBase', _mnemonic='str', _default_endian='str', _registers='set[str]')
+declare_fields('InstructionSet', _instructions_config='cfg', _macros_config='cfg?', _instruction_mnemonics='set[str]',
+               _macro_mnemonics='set[str]', __dict='dict[str,InstructionBase]')
